@@ -103,28 +103,38 @@ var mCgoNamed = Mutant{"updateImports sends the cgo pseudo-import through name s
 var mCgoEmptyName = Mutant{"updateImports gives the cgo pseudo-import the empty name of dot and blank imports", fR, "r.packageNames[path], aliases[path] = \"C\", \"\"", "r.packageNames[path], aliases[path] = \"\", \"\""}
 var mTextLen = Mutant{"fragment() finds the end of a raw string by the length of its value", fDF, "endLine := startLine + strings.Count(frag.String, \"\\n\")", "endLine := f.position(frag.Pos + token.Pos(len(frag.String))).Line"}
 var mCommentEnd = Mutant{"fragment() finds the end of a comment by its End()", fDF, "endLine := startLine + strings.Count(c.Text, \"\\n\")", "endLine := f.position(c.End()).Line"}
-var mLineAtNodeEnd = Mutant{"applyDecorations starts the line of a newline decoration at the end of the node", fR, "\t\t\tif isNewline && r.cursor != r.cursorAtNewLine {\n", "\t\t\tif false {\n"}
+var mLineAtNodeEnd = Mutant{"applyDecorations starts the line of a newline decoration at the end of the node", fR, "\t\t\tif r.cursor != r.cursorAtNewLine {\n", "\t\t\tif false {\n"}
 var mHangOnlyEmpty = Mutant{"link() searches hanging comments of a clause only when it has no body", fDF, "\t\t\tif caseClause || commClause {\n", "\t\t\tif start == end && (caseClause || commClause) {\n"}
 var mKeepLineZero = Mutant{"RestoreFile keeps a first line start that repeats offset 0", fR, "\tif len(r.lines) > 1 && r.lines[1] == r.lines[0] {", "\tif len(r.lines) > 1 && r.lines[1] < r.lines[0] {"}
 var mLocalPath = Mutant{"gotypes resolver gives a path to objects that are not package-level", "decorator/resolver/gotypes/resolver.go", "\tif obj.Parent() != pkg.Scope() {", "\tif false {"}
 
+var mLineCommentAtEnd = Mutant{"applyDecorations steps over a byte before a newline decoration only, not before the line break of a // comment", fR, "\t\t\tif r.cursor != r.cursorAtNewLine {\n", "\t\t\tif isNewline && r.cursor != r.cursorAtNewLine {\n"}
+var mAskResolverForC = Mutant{"updateImports asks the resolver for the cgo pseudo-package", fR, "\t\tif path == \"C\" {\n\t\t\t// the cgo pseudo-package is not a package a resolver can find: it is always called C\n\t\t\tcontinue\n\t\t}\n", ""}
+var mParensAlwaysDropped = Mutant{"updateImports drops the parentheses of a commented spec that is left alone", fR, "} else if count == 1 && len(specs[0].Decorations().Start) == 0 {", "} else if count == 1 {"}
+var mImplicitSemiNoPos = Mutant{"restore leaves the implicit semicolon of an empty statement without a position", fRest, "\t\t} else {\n\t\t\tout.Semicolon = r.cursor\n\t\t}\n", "\t\t}\n"}
+var mNoPathValidation = Mutant{"updateImports does not return the error of a malformed import path", fR, "\tif invalid != nil {\n\t\treturn invalid\n\t}\n", ""}
+var mSpacingOverwritten = Mutant{"link pass 2 lets a later line break overwrite an empty line", fDF, "if foundBefore && f.before[nodeBefore] < spaceType {", "if foundBefore {"}
+var mHangOneLevel = Mutant{"link searches hanging comments only below a statement that ends exactly one level deeper", fDF, "\t\t\tif end <= start {\n", "\t\t\tif end != start+1 {\n"}
+var mNoFileExtent = Mutant{"RestoreFile does not record the extent of the file", fR, "\tsetFileExtent(f, token.Pos(ff.Base()), token.Pos(ff.Base()+ff.Size()))\n", ""}
+var mGotypesC = Mutant{"gotypes resolver gives C.x the path of the cgo pseudo-package", "decorator/resolver/gotypes/resolver.go", "\t\tif pn.Imported().Path() == \"C\" {", "\t\tif false {"}
+
 // SelfTestMutants lists, per property, the mutants its check must catch.
 var SelfTestMutants = map[string][]Mutant{
-	"C01": {mTokenLen, mDropTok, mElseGuard, mFragNoChild, mNoParseComments, mFileScope, mDecKey, mCrossFile, mAvoidGroup, mEndAtPos, mInnerAtToken, mAttachedStops, mAdjustedLine, mTextLen, mCommentEnd, mLineAtNodeEnd, mHangOnlyEmpty},
+	"C01": {mTokenLen, mDropTok, mElseGuard, mFragNoChild, mNoParseComments, mFileScope, mDecKey, mCrossFile, mAvoidGroup, mEndAtPos, mInnerAtToken, mAttachedStops, mAdjustedLine, mTextLen, mCommentEnd, mLineAtNodeEnd, mHangOnlyEmpty, mHangOneLevel, mLineCommentAtEnd},
 	"C02": {mDecKey, mCloneDropDec, mSpaceLast, mCondDec, mCrossFile, mEndAtPos, mAttachedStops, mHangOnlyEmpty},
-	"C03": {mDropTok, mDropChildDeco, mFragNoChild, mElseGuard, mCrossFile, mAvoidGroup, mAdjustedLine, mTextLen, mCommentEnd, mLineAtNodeEnd},
+	"C03": {mDropTok, mDropChildDeco, mFragNoChild, mElseGuard, mCrossFile, mAvoidGroup, mAdjustedLine, mTextLen, mCommentEnd, mLineAtNodeEnd, mSpacingOverwritten},
 	"C04": {mSwapDecs, mEndFlag, mCondDec},
-	"C05": {mSpaceNoFresh, mSpaceEmpty3, mSpaceLast, mNoAdvanceNL, mLineAtNodeEnd},
+	"C05": {mSpaceNoFresh, mSpaceEmpty3, mSpaceLast, mNoAdvanceNL, mLineAtNodeEnd, mLineCommentAtEnd},
 	"C06": {mCloneAlias, mCloneDropDec, mCloneShareDec, mDupFlag, mDeleteReg, mClonePath},
-	"C07": {mNoSort, mIdentNoPeriod, mResolveAll, mCgoNamed, mCgoEmptyName},
-	"C08": {mAlwaysSort, mMergeOrder, mIdentNoPeriod, mStoreBeforeErr, mResolveAll, mCgoNamed, mCgoEmptyName},
-	"C09": {mAvoidTypo, mForceX, mNoVendorLocal, mFieldPath, mRawFile, mDropPath, mSelName, mSelPathCond, mGoastStopEarly, mLocalPath},
+	"C07": {mNoSort, mIdentNoPeriod, mResolveAll, mCgoNamed, mCgoEmptyName, mParensAlwaysDropped, mAskResolverForC},
+	"C08": {mAlwaysSort, mMergeOrder, mIdentNoPeriod, mStoreBeforeErr, mResolveAll, mCgoNamed, mCgoEmptyName, mAskResolverForC},
+	"C09": {mAvoidTypo, mForceX, mNoVendorLocal, mFieldPath, mRawFile, mDropPath, mSelName, mSelPathCond, mGoastStopEarly, mLocalPath, mGotypesC},
 	"C10": {mDropPath, mSelName, mSelPathCond, mSelFromAlias, mForceX, mNoVendorLocal, mClonePath},
 	"C11": {mDropMapReg, mLateMapReg, mDropChildDeco, mDeleteReg, mBackMapSel},
-	"C12": {mCursorBack, mNoAdvanceNL, mAddFileEarly, mPosNotCursor, mLinesReuse, mKeepLineZero, mLineAtNodeEnd},
+	"C12": {mCursorBack, mNoAdvanceNL, mAddFileEarly, mPosNotCursor, mLinesReuse, mKeepLineZero, mLineAtNodeEnd, mImplicitSemiNoPos, mNoFileExtent, mLineCommentAtEnd},
 	"C13": {mWalkDrop, mWalkOrder, mWalkNoNil},
 	"C14": {mApplyName, mApplyDrop, mIterStep, mUnsortedFiles, mWalkDrop},
-	"C15": {mNilFileGuard, mUnguardChild, mNewPanic, mRawFile},
+	"C15": {mNilFileGuard, mUnguardChild, mNewPanic, mRawFile, mNoPathValidation},
 	"C16": {mUnlockEarly, mGlobalWrite, mGoroutine, mNoSort},
 	"C17": {mSwallowErr, mErrNoWrap, mStoreBeforeErr, mDecoDropErr},
 	"C18": {mObjLate, mScopeNoOuter, mExtrasGate, mNewPkgErr, mScopeInsert},
